@@ -182,7 +182,9 @@ Fixpoint dedup (l : list ident) (seen : list ident) : list ident :=
 Fixpoint bnames (e : expr) {struct e} : list ident :=
   match e with
   | ENeg a | ENot a | EBNot a | EPrint a => bnames a
-  | EBin _ a b | EAssign a b | EWhile a b | EDoWhile a b | EIf a b => bnames a ++ bnames b
+  | EBin _ a b | EAssign a b | EWhile a b | EDoWhile a b | EIf a b | EIndex a b => bnames a ++ bnames b
+  | EArrLit es _ => (fix go (l : list expr) : list ident :=
+                       match l with [] => [] | a :: t => bnames a ++ go t end) es
   | ECond c a b => bnames c ++ bnames a ++ bnames b
   | EFor i c s b => bnames i ++ bnames c ++ bnames s ++ bnames b
   | ECall f args => bnames f ++ (fix go (l : list expr) : list ident :=
@@ -220,7 +222,9 @@ Fixpoint trav (d : bool) (e : expr) {struct e} : list ident :=
   match e with
   | EVar x => if d then [x] else []
   | ENeg a | ENot a | EBNot a | EPrint a => trav d a
-  | EBin _ a b | EAssign a b | EWhile a b | EIf a b => trav d a ++ trav d b
+  | EBin _ a b | EAssign a b | EWhile a b | EIf a b | EIndex a b => trav d a ++ trav d b
+  | EArrLit es _ => (fix go (l : list expr) : list ident :=
+                       match l with [] => [] | a :: t => trav d a ++ go t end) es
   | EDoWhile b c => trav d c ++ trav d b
   | ECond c a b => trav d c ++ trav d a ++ trav d b
   | EFor i c s b => trav d i ++ trav d c ++ trav d s ++ trav d b
@@ -358,6 +362,11 @@ Fixpoint cexpr (fc : fctx) (self : option ident) (tail : bool) (L : Z) (ce : cen
       else call_code (compile_args_f (cexpr fc None false) ce (L + num_frame_ptrs) args)
                      (cexpr fc None false (L + num_frame_ptrs + v) ce f)
   | ELambda fd => closure_code fc L ce fd
+  | EArrLit es _ =>                      (* array_init_emit: the elements last to first, the size, MK_INIT_ARRAY 1 *)
+      compile_args_f (cexpr fc None false) ce L es ++
+      [ins BYTECODE_INT (Z.of_nat (length es)) 0; ins BYTECODE_MK_INIT_ARRAY 1 0]
+  | EIndex a i =>                        (* expr_array_deref_emit: the array, the index, ARRAYREF_DEREF 1 *)
+      cexpr fc None false L ce a ++ cexpr fc None false (L + 1) ce i ++ [ins BYTECODE_ARRAYREF_DEREF 1 0]
   | _ => []                              (* outside the fragment *)
   end.
 
@@ -427,7 +436,9 @@ End Funs.
 Fixpoint nest (e : expr) {struct e} : list (fkind * fdef) :=
   match e with
   | ENeg a | ENot a | EBNot a | EPrint a => nest a
-  | EBin _ a b | EAssign a b | EWhile a b | EDoWhile a b | EIf a b => nest a ++ nest b
+  | EBin _ a b | EAssign a b | EWhile a b | EDoWhile a b | EIf a b | EIndex a b => nest a ++ nest b
+  | EArrLit es _ => (fix go (l : list expr) : list (fkind * fdef) :=
+                       match l with [] => [] | a :: t => go t ++ nest a end) es
   | ECond c a b => nest c ++ nest a ++ nest b
   | EFor i c s b => nest i ++ nest c ++ nest b ++ nest s
   | ECall f args => (fix go (l : list expr) : list (fkind * fdef) :=
@@ -452,7 +463,9 @@ Definition nest_fd (fd : fdef) : list (fkind * fdef) :=
 Fixpoint edepth (e : expr) {struct e} : nat :=
   match e with
   | ENeg a | ENot a | EBNot a | EPrint a => edepth a
-  | EBin _ a b | EAssign a b | EWhile a b | EDoWhile a b | EIf a b => Nat.max (edepth a) (edepth b)
+  | EBin _ a b | EAssign a b | EWhile a b | EDoWhile a b | EIf a b | EIndex a b => Nat.max (edepth a) (edepth b)
+  | EArrLit es _ => (fix go (l : list expr) : nat :=
+                       match l with [] => 0 | a :: t => Nat.max (edepth a) (go t) end) es
   | ECond c a b => Nat.max (edepth c) (Nat.max (edepth a) (edepth b))
   | EFor i c s b => Nat.max (Nat.max (edepth i) (edepth c)) (Nat.max (edepth s) (edepth b))
   | ECall f args => Nat.max (edepth f) ((fix go (l : list expr) : nat :=
@@ -709,6 +722,12 @@ Fixpoint in_F4 (own : option ident) (sc : list ident) (e : expr) {struct e} : bo
       negb (is_lit a && is_lit b) && shift_ok op b && in_F4 own sc a && in_F4 own sc b
   | ECond c a b => negb (is_lit c) && in_F4 own sc c && in_F4 own sc a && in_F4 own sc b
   | EAssign (EVar x) r => mem_id x sc && int_shaped r && in_F4 own sc r
+  | EAssign (EIndex a i) r => in_F4 own sc a && in_F4 own sc i && int_shaped r && in_F4 own sc r
+  | EIndex a i => in_F4 own sc a && in_F4 own sc i
+  | EArrLit es TInt =>
+      match es with [] => false | _ => true end &&
+      (fix all (l : list expr) : bool :=
+         match l with [] => true | a :: t => in_F4 own sc a && all t end) es
   | EBlock items =>
       items_F4_f (in_F4 own) (fun sc fd => fd_in_F4 own sc KNamed fd) sc 0%nat items
   | EWhile c b => in_F4 own sc c && in_F4 own sc b
@@ -797,7 +816,8 @@ Proof. intros AF k fd H. unfold known in H. destruct (in_dec kf_eq_dec (k, fd) A
 Fixpoint ivars_e (e : expr) {struct e} : list ident :=
   match e with
   | ENeg a | ENot a | EBNot a | EPrint a => ivars_e a
-  | EBin _ a b | EWhile a b | EDoWhile a b | EIf a b | EAssign a b => ivars_e a ++ ivars_e b
+  | EBin _ a b | EWhile a b | EDoWhile a b | EIf a b | EAssign a b | EIndex a b => ivars_e a ++ ivars_e b
+  | EArrLit es _ => (fix go (l : list expr) : list ident := match l with [] => [] | a :: t => ivars_e a ++ go t end) es
   | ECond c a b => ivars_e c ++ ivars_e a ++ ivars_e b
   | EFor i c s b => ivars_e i ++ ivars_e c ++ ivars_e s ++ ivars_e b
   | ECall f args =>
@@ -865,6 +885,13 @@ Fixpoint in_F (FS : fsigs) (TL : list ident) (AF : list (fkind * fdef)) (self : 
       in_F FS TL AF self lv sc a && in_F FS TL AF self lv sc b
   | ECond c a b => negb (is_lit c) && in_F FS TL AF self lv sc c && in_F FS TL AF self lv sc a && in_F FS TL AF self lv sc b
   | EAssign (EVar x) r => at6 lv (mem_id x (int_vars AF)) && mem_id x sc && int_shaped r && in_F FS TL AF self lv sc r
+  | EAssign (EIndex a i) r =>          (* level 7: an element of a one-dimensional int array *)
+      Nat.leb 7 lv && in_F FS TL AF self lv sc a && in_F FS TL AF self lv sc i && int_shaped r && in_F FS TL AF self lv sc r
+  | EIndex a i => Nat.leb 7 lv && in_F FS TL AF self lv sc a && in_F FS TL AF self lv sc i
+  | EArrLit es _ =>                    (* level 7: [e1, …, en] : int, n >= 1, every element int_shaped *)
+      Nat.leb 7 lv && match es with [] => false | _ => true end && forallb int_shaped es &&
+      (fix all (l : list expr) : bool :=
+         match l with [] => true | a :: t => in_F FS TL AF self lv sc a && all t end) es
                  (* at level 6 only to a name bound by var x = <int_shaped>: Src/Eval.v is untyped, an assignment
                     through an alias of a function cell goes on there and is stuck on the machine *)
   | EBlock items => items_F_f FS TL AF self lv (in_F FS TL AF self lv) sc 0%nat items
